@@ -67,6 +67,9 @@ _V = None
 _SETUP_DONE = []
 
 
+RULE = RULE + ' Round 15: remove_fields with duplicate names, reversed order and tuples.'
+
+
 def setup():
     if _SETUP_DONE:
         return
